@@ -117,6 +117,15 @@ CLAIMED["C09"] = dict(cat="other", technique="per-bunch subscript analysis and f
         "every path. The discretisation error of the moments is NOT decided.",
    note="Exact arithmetic; relies on the size lemma nx==ny (one weight vector for both axes). OpenCL path not analysed.",
    ref="DESIGN.md §3 C09")
+CLAIMED["C10"] = dict(cat="other", technique="freshness typestate (forward must-dataflow on main's CFG) with transfer functions from interprocedural read/write effect summaries; sibling-block agreement; dataset/accessor/axis table analysis of HDF5File",
+   text="Decides on every path of main (separately for each combination of the loop-invariant null tests) that at each append site every derived quantity the call stores is "
+        "recomputed after the last change of the grid it is stored with; that the loop output block and the final block perform the same refresh and append calls with the same "
+        "time expression; that every time-indexed dataset has exactly one append site, the record time is written in the same branch as its datasets, each dataset is fed from "
+        "the accessor its path names and each axis/unit attribute from the matching axis; and that records are written iff step mod outstep == 0 plus one final record. Numerical "
+        "agreement of stored moments with recomputed ones and absolute unit values are NOT decided.",
+   note="Effect summaries trust a small library model (copy/fill/fft_execute by pointer arguments). One defect repaired (F5 energy axis), one recorded at 7 sites as known "
+        "findings (F6: records written on a renormalising step store pre-normalisation projections/moments/wake).",
+   ref="DESIGN.md §3 C10")
 NOT_YET = "check not built yet in this round (static rule designed in DESIGN.md §3, not implemented)"
 NA = {}
 
